@@ -56,7 +56,19 @@ def models_for(plugin, work, thorough):
     # AL (optional: dropped for a plugin whose reference run does not accept it): a second file with type aliases
     # whose types are anonymous literals with only "generic" member names (ties in the plugins' naming rules)
     pl = docs.write(alias_literal_model(a), os.path.join(work, "L.json"))
-    return {"A": [pa], "B": [pb], "AX": [pa, px], "AL": [pa, pl]}
+    out = {"A": [pa], "B": [pb], "AX": [pa, px], "AL": [pa, pl]}
+    if plugin in ("dotnet", "testdata"):
+        # K: model A with the typeName of one notification changed in letter case only (same content, file names that
+        # differ from A's only in case): what a case-insensitive clean-up leaves behind
+        import copy as _copy
+        k = _copy.deepcopy(a)
+        for msg in k.get("notifications", []) + k.get("requests", []):
+            tn = msg.get("typeName")
+            if tn and len(tn) > 6:
+                msg["typeName"] = tn[0] + tn[1].swapcase() + tn[2:]          # inside the stem: the Request / Notification suffix stays
+                break
+        out["K"] = [docs.write(k, os.path.join(work, "K.json"))]
+    return out
 
 
 OPTIONAL_MODELS = {"AL"}
@@ -272,7 +284,7 @@ def _plugin_task(args):
                     out["bad"].append(("hash-seed", plugin, "%s on model %s with PYTHONHASHSEED=%s differs from seed 0 (exit %d): %s" % (plugin, mk, hs, r.returncode, [x[0] for x in diff]),
                                        {"history": ["Fresh", "Run(%s)" % mk], "hashseed": hs}))
         # ---- in-process histories (explicit-state BFS, state = digest of the directories)
-        events = [("Run", mk, sm) for mk in ("A", "B") for sm in (SEAMS if thorough else SEAMS[:2])]
+        events = [("Run", mk, sm) for mk in (("A", "B", "K") if "K" in models else ("A", "B")) for sm in (SEAMS if thorough else SEAMS[:2])]
         events += [("StaleOwned",), ("CorruptOwned",), ("CrlfOwned",), ("StaleForeign",), ("Fresh",)]
         maxlen = 3
         if plugin in ("dotnet", "testdata") and not thorough:
